@@ -55,6 +55,8 @@ class Sink(om.ExplicitComponent):
         for inp in self.options['spec']['inputs']:
             if inp.get('sbc'):
                 self.add_input(inp['name'], shape_by_conn=True, units=inp['units'])
+            elif inp.get('true0'):
+                self.add_input(inp['name'], val=0.0, shape=(), units=inp['units'])
             else:
                 self.add_input(inp['name'], val=np.zeros(inp['shape'] or [1]), units=inp['units'])
         self.add_output('z', val=0.0)
@@ -69,7 +71,11 @@ def build(case):
     ivc = om.IndepVarComp()
     for s in case['sources']:
         if s['kind'] == 'ivc':
-            ivc.add_output(s['name'], val=np.array(s['vals'], dtype=float).reshape(s['shape']), units=s['units'])
+            if s['shape']:
+                ivc.add_output(s['name'], val=np.array(s['vals'], dtype=float).reshape(s['shape']),
+                               units=s['units'])
+            else:
+                ivc.add_output(s['name'], val=float(s['vals'][0]), shape=(), units=s['units'])
     prom = [s['name'] for s in case['sources'] if s['kind'] == 'ivc' and s['promoted']]
     root.add_subsystem('ivc', ivc, promotes_outputs=prom)
     g1 = None
